@@ -208,6 +208,7 @@ func runC04(args []string) int {
 	writeFile(o.Out, "cases_C04.v", sb.String())
 	rep.CoqCases = len(coqCases)
 	rep.Extra["case_index"] = caseIdx
+	runBuilderTie(o, rep)
 	rep.Write(o.Out)
 	return 0
 }
